@@ -324,3 +324,54 @@ def q_po2(d):
     return {"status": "confirmed" if bad else "refuted", "observed": obs,
             "expected": "sign * 2^e, e the rounded log2 of the clamped magnitude clipped to [emin, emax]"}
   return {"status": "unsupported", "detail": clause}
+
+
+@replayer("c06_grad")
+def c06_grad(d):
+  import tensorflow as tf
+  from qkeras import quantizers
+  w = d["witness"]
+  rep = w["__replay__"]
+  cls, variant = rep["class"], rep["variant"]
+  bits, integer, f = int(rep["bits"]), int(rep["integer"]), float(F(rep["f"]))
+  x0 = float(f32(F(w.get("x", 0))))
+  C = getattr(quantizers, cls)
+  if cls == "quantized_bits":
+    q = C(bits, integer, qnoise_factor=f, use_ste=(variant == "ste"))
+    exp = 1.0 if variant == "ste" else 1 - f
+  elif cls == "quantized_linear":
+    q = C(bits, integer, qnoise_factor=f)
+    n = bits - 1
+    unit = 2.0 ** (integer - n)
+    exp = 1.0 if -(2 ** n - 1) * unit < x0 < (2 ** n - 1) * unit else 1 - f
+  elif cls == "quantized_relu":
+    slope = 0.25 if "leaky" in variant else 0.0
+    ste = "noste" not in variant
+    q = C(bits, integer, 0, slope, qnoise_factor=f, use_ste=ste)
+    n = bits - (1 if slope else 0)
+    top = 2.0 ** integer - 2.0 ** (integer - n)
+    sur = 0.0 if x0 > top else (1.0 if x0 > 0 else slope)
+    exp = sur if ste else (1 - f) * sur
+  elif cls == "quantized_po2":
+    q = C(bits, qnoise_factor=f, use_ste=(variant == "ste"))
+    exp = 1.0 if variant == "ste" else 1 - f
+  elif cls == "quantized_relu_po2":
+    slope = 0.25 if "leaky" in variant else 0
+    q = C(bits, None, slope, qnoise_factor=f)
+    exp = 1.0 if x0 > 0 else slope
+  elif cls in ("binary", "ternary"):
+    alpha = rep.get("alpha")
+    q = C(False, alpha) if cls == "binary" else C(alpha, 0.5)
+    import math
+    exp = 1 - math.tanh(x0) ** 2 if alpha is None else 1.0
+  else:
+    return {"status": "unsupported"}
+  x = tf.Variable([x0], dtype=tf.float32)
+  with tf.GradientTape() as tape:
+    y = q(x)
+  g = tape.gradient(y, x)
+  gv = 0.0 if g is None else float(g.numpy()[0])
+  obs = {"x": x0, "gradient": gv, "expected": exp}
+  if d["clause"] == "nonzero":
+    return {"status": "confirmed" if gv == 0.0 else "refuted", "observed": obs, "expected": "non-zero gradient on the unclipped range"}
+  return {"status": "confirmed" if abs(gv - exp) > 1e-4 * max(1.0, abs(exp)) else "refuted", "observed": obs}
